@@ -7,11 +7,11 @@
    census"):
        raw text, print, {log}, {debugger}, {let $x: e /}, {let $x}..{/let},
        {if}/{elseif}/{else}, {for $x in e}..{ifempty}..{/for}.
-   NOT covered here (see notes/astprint-reparse.md): {switch} (String() prints the default case
-   as "{case }", which the parser rejects; the {case a, b} form re-parses on the real code but is
-   not part of this token-level statement), {call}, {msg}, {css} (re-parse on the real code,
-   census of the C17 harness; not part of this statement), templates, soydoc, namespaces
-   (String() is not the source syntax).
+       {switch}/{case a, b}/{default} (the default case is the item "default": what the parser
+       accepts; SwitchCaseNode.String of the pinned tree writes "{case }", W1), {call} with data= and
+       both parameter forms, {css}, {msg} with text / html-tag runs, placeholders and {plural}.
+   NOT covered here (see notes/astprint-reparse.md): templates, soydoc, namespaces, header
+   parameters (String() is not the source syntax).
 
    As in Spec/ExprSyntax.v every item carries the position of the node it gives rise to; the
    items that give rise to no node ("{", "}", "/}", the closing tags, "in", ...) are at
